@@ -1374,3 +1374,34 @@ Proof.
   - destruct (params_langevin c NZ) as (Hl & Hg & _). fold p in Hl, Hg. rewrite Hg, Hl.
     split; [lra | ]. split; [split; [intros _; exact NZ | reflexivity] | split; assumption].
 Qed.
+
+(* ================================================================== round 5 *)
+(* a job that started between two steps of a timeStepFactor > 1 variable, state written before the variable's first update: nothing
+   is saved for the extended coordinate, the new job initialises it at its first update exactly as the uninterrupted job does *)
+Lemma resume_before_first_update c p t i l :
+  i_running i = true -> (0 <= t < i_step i)%Z ->
+  List.Forall (fun j => i_running j = true /\ (i_step i < i_step j)%Z) l ->
+  saved_xv_opt Rops (init_state Rops) t = None /\
+  (forall n, saved_xv_opt Rops (Nat.iter n (sleep Rops) (init_state Rops)) t = None) /\
+  trace Rops c p (restart_state_opt Rops None) (map (shift_input t) (i :: l))
+  = map (shift_state t) (trace Rops c p (init_state Rops) (i :: l)).
+Proof.
+  intros Hrun Ht Hl. split; [reflexivity | ]. split.
+  { intros n. assert (H : s_x_ext (Nat.iter n (sleep Rops) (init_state Rops)) = None) by (induction n as [| n IH]; [reflexivity | cbn [Nat.iter]; exact IH]).
+    unfold saved_xv_opt. rewrite H. reflexivity. }
+  cbn [map trace restart_state_opt].
+  set (r0 := mkState None (n0 Rops) (n0 Rops) (n0 Rops) (-1)%Z (n0 Rops) true (n0 Rops) (n0 Rops) (n0 Rops) (n0 Rops) (n0 Rops) (n0 Rops) (n0 Rops) false).
+  set (i0 := shift_input t i).
+  assert (Hp : props_xv Rops c (init_state Rops) i = (clamp_init Rops c (i_x i), 0)).
+  { apply props_first; [exact Hrun | cbn; lia | reflexivity]. }
+  assert (Hp0 : props_xv Rops c r0 i0 = (clamp_init Rops c (i_x i), 0)).
+  { unfold r0, i0. rewrite props_first; [reflexivity | exact Hrun | cbn; lia | reflexivity]. }
+  assert (He : tsf_error c (init_state Rops) i = false) by reflexivity.
+  assert (He0 : tsf_error c r0 i0 = false) by reflexivity.
+  assert (Hfirst : step Rops c p r0 i0 = shift_state t (step Rops c p (init_state Rops) i)).
+  { rewrite (step_running_eq c p r0 i0 Hrun He0), (step_running_eq c p _ i Hrun He). rewrite Hp, Hp0. reflexivity. }
+  rewrite Hfirst. f_equal.
+  destruct (step_keeps_live c p (init_state Rops) i Hrun) as (L1 & L2 & L3).
+  apply trace_shift; auto; [lia | ].
+  eapply Forall_impl; [ | exact Hl]. intros j [Hj1 Hj2]. split; [exact Hj1 | lia].
+Qed.
